@@ -2,6 +2,8 @@
    simulated MPI.  stdin: one run per line:
      <P> <seed> <adversary> <op> <dtype> <count> <target|-1> <dataseed>
    op: 0 MIN 1 MAX 2 SUM 3 custom (composition of affine maps on pairs of unsigned: associative, not commutative)
+       4 custom on TRIPLES of unsigned (product of upper triangular 2x2 matrices mod 2^32: associative, not commutative;
+         an operand of three items never divides a power-of-two piece of the buffer)
    dtype: 0 int 1 unsigned 2 long 3 float 4 double 5 char 6 short 7 unsigned long 8 long long
    The harness reads the input values from the line following each run line: <P*count> hex words (bit patterns). */
 #include <sc.h>
@@ -21,6 +23,16 @@ static void comp (void *sv, void *rv, int n, sc_MPI_Datatype t)
   for (int i = 0; i + 1 < n; i += 2) { unsigned a = r[i], b = r[i + 1], c = s[i], d = s[i + 1]; r[i] = a * c; r[i + 1] = a * d + b; }
 }
 
+static void comp3 (void *sv, void *rv, int n, sc_MPI_Datatype t)
+{
+  /* recvbuf := recvbuf * sendbuf with (a b; 0 c) stored as a, b, c */
+  unsigned *s = (unsigned *) sv, *r = (unsigned *) rv;
+  for (int i = 0; i + 2 < n; i += 3) {
+    unsigned a = r[i], b = r[i + 1], c = r[i + 2], x = s[i], y = s[i + 1], z = s[i + 2];
+    r[i] = a * x; r[i + 1] = a * y + b * z; r[i + 2] = c * z;
+  }
+}
+
 static void rank_main (int rank, int size, void *varg)
 {
   arg_t *a = (arg_t *) varg;
@@ -34,8 +46,8 @@ static void rank_main (int rank, int size, void *varg)
     else sc_reduce (in, out, a->count, dts[a->dt], ops[a->op], a->target, sc_MPI_COMM_WORLD);
   }
   else {
-    if (a->target < 0) sc_allreduce_custom (in, out, a->count, dts[a->dt], comp, sc_MPI_COMM_WORLD);
-    else sc_reduce_custom (in, out, a->count, dts[a->dt], comp, a->target, sc_MPI_COMM_WORLD);
+    if (a->target < 0) sc_allreduce_custom (in, out, a->count, dts[a->dt], a->op == 4 ? comp3 : comp, sc_MPI_COMM_WORLD);
+    else sc_reduce_custom (in, out, a->count, dts[a->dt], a->op == 4 ? comp3 : comp, a->target, sc_MPI_COMM_WORLD);
   }
   a->out[rank] = out;
   SC_FREE (in);
@@ -43,7 +55,7 @@ static void rank_main (int rank, int size, void *varg)
 
 int main (void)
 {
-  static char line[1 << 22];
+  static char line[1 << 24];
   char tpath[256];
   int run = 0;
   sc_init (sc_MPI_COMM_NULL, 0, 0, NULL, SC_LP_SILENT);
